@@ -793,11 +793,11 @@ class CompilerPassSetReadWritten(CompilerPassResetReadWritten):
 
     def handle_attribute(self, node: nodes.Attribute):
         # scope = get_scope_name(node) #.expr.as_string()
-        scope = (
-            node.expr.name
-            if isinstance(node.expr, nodes.Name)
-            else get_scope_name(node.expr)
-        )
+        if not isinstance(node.expr, nodes.Name):
+            # only '<module>.<name>' refers to a library module; a longer attribute chain
+            # (a device access written at the top level of a library) is not a module access
+            return
+        scope = node.expr.name
         if scope in self.data.modules:
             module_locals = self.data.modules[scope].locals
             if node.attrname not in module_locals:
